@@ -172,3 +172,33 @@ def literal_reinsertion_is_last(prop="C18"):
                   desc="after the loop that puts the captured literals back, `initial` is only read; inside it a literal is changed only by the NBSP substitution for runs of blanks "
                        "and the doubling of backslashes", witness=None if ok else {"assignments to `initial` after the re-insertion": later, "transformations of the literal": inside}))
     return out
+
+
+def rx_obligations(prop="C18"):
+    """Engine B: the patterns parse_type uses to take kind / len values and the double-precision spellings apart"""
+    from revc.oblig import RX, lang_nonempty
+    from revc import spec as SP
+    sf = loader.import_repo("ford.sourceform")
+    out = []
+    anything = SP.plus(SP.notcls(SP.chars("\n")))
+    nonblank_start = SP.seq(SP.notcls(SP.chars("\n \t")), SP.star(SP.notcls(SP.chars("\n"))))
+    kind = RX("ford.sourceform.KIND_RE", sf.KIND_RE, "fullmatch" if False else "match", prop)
+    out.append(kind.covers(f"{prop}.B.KIND_RE.covers_any_value", SP.seq(SP.kw("kind"), SP.ws0, SP.lit("="), SP.ws0, nonblank_start),
+                           "`kind = <expression>` is recognised whatever the expression contains (commas, parentheses, operators)"))
+    ln = RX("ford.sourceform.LEN_RE", sf.LEN_RE, "match", prop)
+    out.append(ln.covers(f"{prop}.B.LEN_RE.covers_any_value", SP.seq(SP.kw("len"), SP.ws0, SP.lit("="), SP.ws0, nonblank_start),
+                         "`len = <expression>` is recognised whatever the expression contains"))
+    out.append(ln.excludes(f"{prop}.B.LEN_RE.excludes_positional_values", SP.seq(SP.cls(SP.chars("0123456789*:(")), SP.star(SP.notcls(SP.chars("\n=")))),
+                           "a positional length (`12`, `*`, `:`, `(n+1)`) is not taken for a `len=` parameter (the fall-through assigns it whole)"))
+    dp = RX("ford.sourceform.DOUBLE_PREC_RE", sf.DOUBLE_PREC_RE, "match", prop)
+    out.append(dp.covers(f"{prop}.B.DOUBLE_PREC_RE.covers_both_spellings", SP.seq(SP.kw("double"), SP.ws0, SP.kw("precision")), "`double precision` and `doubleprecision`, any case"))
+    dc = RX("ford.sourceform.DOUBLE_CMPLX_RE", sf.DOUBLE_CMPLX_RE, "match", prop)
+    out.append(dc.covers(f"{prop}.B.DOUBLE_CMPLX_RE.covers_both_spellings", SP.seq(SP.kw("double"), SP.ws0, SP.kw("complex")), "`double complex` and `doublecomplex`, any case"))
+    # group 1 of KIND_RE / LEN_RE is the whole rest of the argument: the value is never cut
+    import re as _re
+    for name, pat in (("KIND_RE", sf.KIND_RE), ("LEN_RE", sf.LEN_RE)):
+        ok = pat.pattern.endswith("(.+)") and pat.groups == 1
+        out.append(OR(id=f"{prop}.S.{name}.value_group_takes_the_rest", status=PROVED if ok else REFUTED, kind="S", role="post", backend="sre", target=f"ford.sourceform.{name}",
+                      desc="the capturing group of the value is `(.+)` at the end of the pattern: the value of the parameter is everything after the `=` (parse_type splits the "
+                           "parameters at top-level commas before it applies the pattern)", witness=None if ok else {"pattern": pat.pattern}))
+    return out
